@@ -334,7 +334,7 @@ func loadObject(vc *VC, h Heap, t types.Type, ref string) string {
 func (env *Env) sliceElem(s TV, i string) TV {
 	sl := types.Unalias(s.Ty).Underlying().(*types.Slice)
 	c := env.vc.compElems(sl.Elem())
-	return TV{sel(sel(env.vc.get(env.heap, c), "(s-base "+s.T+")"), "(+ (s-off "+s.T+") "+i+")"), sl.Elem()}
+	return TV{sel(sel(env.vc.get(env.heap, c), "(s-base "+s.T+")"), "(sidx (s-off "+s.T+") "+i+")"), sl.Elem()}
 }
 
 func (env *Env) lenOf(x TV) string {
@@ -755,6 +755,9 @@ func (env *Env) applySpecIn(sf *SpecFunc, args []ast.Expr, argEnv *Env) TV {
 	if len(args) != len(sf.Params) {
 		sfail("spec %s: want %d args", sf.Name, len(sf.Params))
 	}
+	if sf.Rec {
+		return env.applyRec(sf, args, argEnv)
+	}
 	if env.depth > 20 {
 		sfail("spec %s: recursion too deep", sf.Name)
 	}
@@ -884,4 +887,101 @@ func (vc *VC) strUF(name, resSort string, args ...string) string {
 		vc.global(key, fmt.Sprintf("(declare-fun %s (%s) %s)", fn, strings.Join(as, " "), resSort))
 	}
 	return "(" + fn + " " + strings.Join(args, " ") + ")"
+}
+
+
+// ---- recursive spec functions: define-fun-rec with the heap components they read as explicit parameters ----
+
+type recInfo struct {
+	comps  []string
+	ptypes []types.Type
+	rtype  types.Type
+	name   string
+	inProg bool
+}
+
+func (env *Env) applyRec(sf *SpecFunc, args []ast.Expr, argEnv *Env) TV {
+	vc := env.vc
+	key := sf.Pkg + "." + sf.Name
+	if vc.recs == nil {
+		vc.recs = map[string]*recInfo{}
+	}
+	specPkg := vc.P.typesPkg(sf.Pkg)
+	if specPkg == nil {
+		sfail("rec %s: package %s not loaded", sf.Name, sf.Pkg)
+	}
+	ri := vc.recs[key]
+	if ri == nil {
+		ri = &recInfo{name: q("rec:" + strings.TrimPrefix(key, modulePath+"/")), inProg: true}
+		vc.recs[key] = ri
+		tenv := &Env{vc: vc, pkg: specPkg, vars: map[string]TV{}, heap: Heap{m: map[string]string{}}, top0: "1"}
+		for _, p := range sf.Params {
+			ri.ptypes = append(ri.ptypes, tenv.resolveType(p.Type))
+		}
+		ri.rtype = tenv.resolveType(sf.Result)
+		build := func() (string, *recHeap) {
+			rh := &recHeap{used: map[string]bool{}}
+			body := &Env{vc: vc, pkg: specPkg, vars: map[string]TV{}, heap: Heap{m: map[string]string{}, rec: rh}, top0: "1", depth: env.depth + 1}
+			body.old = body
+			for i, p := range sf.Params {
+				body.vars[p.Name] = TV{q("rp:" + p.Name), ri.ptypes[i]}
+			}
+			return body.expr(sf.Body).T, rh
+		}
+		// pass 1: discover the heap components read (self-calls pass the heap through)
+		_, rh := build()
+		ri.comps = append([]string{}, rh.order...)
+		// pass 2: final text
+		text, rh2 := build()
+		if len(rh2.order) != len(ri.comps) {
+			sfail("rec %s: unstable heap footprint", sf.Name)
+		}
+		var ps []string
+		for _, c := range ri.comps {
+			ps = append(ps, fmt.Sprintf("(%s %s)", q("hp:"+c), vc.compSort(c)))
+		}
+		for i, p := range sf.Params {
+			ps = append(ps, fmt.Sprintf("(%s %s)", q("rp:"+p.Name), vc.sorts.sortOf(ri.ptypes[i])))
+		}
+		vc.global("sort:Fuel", "(declare-datatypes ((Fuel 0)) (((FZ) (FS (fpred Fuel)))))")
+		var sorts, names []string
+		for _, c := range ri.comps {
+			sorts = append(sorts, vc.compSort(c))
+			names = append(names, q("hp:"+c))
+		}
+		for i, p := range sf.Params {
+			sorts = append(sorts, vc.sorts.sortOf(ri.ptypes[i]))
+			names = append(names, q("rp:"+p.Name))
+		}
+		// fuel encoding (as in Dafny/Boogie): unfolding is limited by a fuel argument so that
+		// quantifiers mentioning the function cannot start a matching loop.
+		vc.globals = append(vc.globals, fmt.Sprintf("(declare-fun %s (Fuel %s) %s)", ri.name, strings.Join(sorts, " "), vc.sorts.sortOf(ri.rtype)))
+		app := fmt.Sprintf("(%s (FS ly!f) %s)", ri.name, strings.Join(names, " "))
+		vc.globals = append(vc.globals, fmt.Sprintf("(assert (forall ((ly!f Fuel) %s) (! (= %s (%s ly!f %s)) :pattern (%s))))", strings.Join(ps, " "), app, ri.name, strings.Join(names, " "), app))
+		vc.globals = append(vc.globals, fmt.Sprintf("(assert (forall ((ly!f Fuel) %s) (! (= %s %s) :pattern (%s))))", strings.Join(ps, " "), app, text, app))
+		ri.inProg = false
+	}
+	ts := []string{"(FS (FS FZ))"}
+	if ri.inProg {
+		// self-call inside the body: one unit of fuel less, same heap parameters
+		ts[0] = "ly!f"
+		for _, c := range ri.comps {
+			ts = append(ts, q("hp:"+c))
+		}
+		if len(ri.comps) == 0 {
+			// pass 1: footprint not known yet; placeholders are fine, text is discarded
+		}
+	} else {
+		for _, c := range ri.comps {
+			ts = append(ts, vc.get(argEnv.heap, c))
+		}
+	}
+	for i, a := range args {
+		v := argEnv.expr(a)
+		if isUntypedNil(v.Ty) {
+			v.T = vc.sorts.zero(ri.ptypes[i], vc.lits)
+		}
+		ts = append(ts, v.T)
+	}
+	return TV{"(" + ri.name + " " + strings.Join(ts, " ") + ")", ri.rtype}
 }
